@@ -287,6 +287,14 @@ def known_slice(c, r):
 
 # ---- full leaf rendering through a backend (operator selection + slices + quoting); shared with C01 ----
 from props import c01 as _c01
+from props import c01_leaf as _lf
+
+def gen_backendleaf(tier, rng):
+    # the complete leaf renderers of TextQueryBackend (operator selection, quoting decision, escaping of the value in its string
+    # and regular-expression forms, field name escaping/quoting) on string values with every kind of field name; a case-sensitive
+    # keyword keeps its characters but loses its match kind, which is C01's subject (C01-unbound-cased-dropped), not this one's
+    return [c for c in _lf.gen_leaf(tier, rng)
+            if c["value"]["t"] == "str" and not (c["field"] is None and c["value"].get("cased"))]
 REQ = ["Base.Chars", "Base.Outcome", "Model.SString", "Spec.Items", "Run.C05run"]
 PROPERTY = Property(
     pid="C05", props_file="Props/C05.v",
@@ -297,6 +305,8 @@ PROPERTY = Property(
         Suite("quoted", gen_quoted, "run_quoted", REQ, "judge_quoted", quoted_to_coq, known=known_quoted, mutate=mutate_str),
         Suite("field", gen_field, "run_field", REQ + ["Model.FieldName"], "judge_field", field_to_coq, known=known_field),
         Suite("leaf", _c01.gen_strop, "run_strop", _c01.REQ + ["Model.StrOp", "Spec.Items"], "judge_strop", _c01.strop_to_coq),
+        Suite("backendleaf", gen_backendleaf, "run_leaf", _c01.REQ_LEAF, "judge_leaf", _lf.leaf_to_coq, stratum=_lf.stratum_leaf,
+              mutate=_lf.mutate_leaf, known=_lf.known_leaf, py_oracle=_lf.py_oracle_leaf, shard=150),
         Suite("rxescape", gen_rxescape, "run_rxescape", REQ + ["Model.RxEscape"], "judge_rxescape", rxescape_to_coq),
         Suite("slice", gen_slice, "run_slice", REQ + ["Model.Slice"], "judge_slice", slice_to_coq, known=known_slice, mutate=mutate_str),
     ],
